@@ -136,6 +136,17 @@ Add(kind) ==
     /\ UNCHANGED <<running, runs, clock, supplied, start, testsRun, cur, out>>
     /\ Log("add", [k |-> kind, t |-> cur])
 
+\* an outcome outside startTest/stopTest (unittest reports class- and module-level fixture errors that way):
+\* listed and counted in K like any other, not counted in N
+AddStray(t, kind) ==
+    /\ running /\ n < MaxLen /\ cur = None /\ kind \in {"error", "failure", "uxsuccess"}
+    /\ errors' = IF kind = "error" THEN Append(errors, t) ELSE errors
+    /\ failures' = IF kind = "failure" THEN Append(failures, t) ELSE failures
+    /\ uxs' = IF kind = "uxsuccess" THEN Append(uxs, t) ELSE uxs
+    /\ evs' = Append(evs, [c |-> kind, v |-> t]) /\ n' = n + 1
+    /\ UNCHANGED <<running, runs, clock, supplied, start, testsRun, cur, curdone, out>>
+    /\ Log("add", [k |-> kind, t |-> t])
+
 StopTest ==
     /\ running /\ n < MaxLen /\ cur # None
     /\ cur' = None /\ curdone' = FALSE
@@ -160,7 +171,7 @@ Next ==
     \/ \E d \in Ticks : Tick(d)
     \/ \E t \in Supplied \cup {NoT} : Time(t)
     \/ \E t \in Tests : StartTest(t)
-    \/ \E k \in Kinds : Add(k)
+    \/ \E k \in Kinds : Add(k) \/ \E t \in Tests : AddStray(t, k)
 
 Spec == Init /\ [][Next]_vars
 
@@ -217,7 +228,7 @@ CeilMeaning ==
         /\ 10 * p >= Elapsed
         /\ 10 * (p - 1) < Elapsed
 
-TypeOK == testsRun >= Len(errors) + Len(failures) + Len(uxs)
+TypeOK == testsRun >= 0 /\ (running => Len(evs) = n + 1)
 
 -----------------------------------------------------------------------------
 Terminal == ~running /\ runs = MaxRuns
